@@ -4,8 +4,8 @@ import (
 	"fmt"
 	"strings"
 
-	"verifharness/internal/gen"
-	"verifharness/internal/h"
+	"verifharness/pkg/gen"
+	"verifharness/pkg/h"
 
 	"github.com/dunglas/mercure"
 )
